@@ -88,6 +88,24 @@ type zooTop3 struct { // three hops: pointer, pointer, pointer
 	D string
 }
 
+// c06Maps: maps over {string, named string} keys x element types that can hold nil, with and without nil entries.
+func c06Maps() []zooItem {
+	i7 := 7
+	return []zooItem{
+		{"map[namedStr]any with nil entry", map[zooNamedStr]any{"a": nil, "b": 2}},
+		{"map[namedStr]any", map[zooNamedStr]any{"a": "x", "b": 2}},
+		{"map[string]error with nil entry", map[string]error{"a": nil, "b": &zooErr{}}},
+		{"map[string]Stringer with nil entry", map[string]fmt.Stringer{"a": nil, "b": zooStringer{}}},
+		{"map[namedStr]*int with nil entry", map[zooNamedStr]*int{"a": nil, "b": &i7}},
+		{"map[string][]any with nil entry", map[string][]any{"a": nil, "b": {1}}},
+		{"map[string]map[string]any with nil entry", map[string]map[string]any{"a": nil, "n": nil, "p": {"a": "x"}}},
+		{"map[namedStr]map[string]any with nil entry", map[zooNamedStr]map[string]any{"n": nil, "p": nil}},
+		{"map[string]func() with nil entry", map[string]func(){"a": nil}},
+		{"map[namedStr]namedStr", map[zooNamedStr]zooNamedStr{"a": "x"}},
+		{"map[string]any with typed-nil entries", map[string]any{"a": (*string)(nil), "b": (*int)(nil), "n": (map[string]any)(nil), "l": ([]int)(nil), "p": (*zooStruct)(nil)}},
+	}
+}
+
 func c06Embeddings() []zooItem {
 	leaf := &zooLeaf{"x", 1}
 	return []zooItem{
@@ -124,7 +142,7 @@ func c06Zoo() []zooItem {
 	var nilIface any
 	var nilErr *zooErr
 	big := strings.Repeat("a", 1<<16)
-	return append(append(c06HandZoo(nilIface, nilErr, pi, ppi, psv, st, pst, ppst, big), c06PtrChains()...), c06Embeddings()...)
+	return append(append(append(c06HandZoo(nilIface, nilErr, pi, ppi, psv, st, pst, ppst, big), c06PtrChains()...), c06Embeddings()...), c06Maps()...)
 }
 
 func c06HandZoo(nilIface any, nilErr *zooErr, pi *int, ppi **int, psv *string, st zooStruct, pst *zooStruct, ppst **zooStruct, big string) []zooItem {
